@@ -72,14 +72,14 @@ type a25frame struct {
 }
 
 type a25 struct {
-	r      *Run
-	p      *Prog
-	target *ssa.Function
-	rcCall *ssa.Call
-	skipFr *types.Var // Event.skipFrame
-	baseG  *ssa.Global
-	base   int64
-	nPaths int
+	r          *Run
+	p          *Prog
+	target     *ssa.Function
+	rcCall     *ssa.Call
+	skipFr     *types.Var // Event.skipFrame
+	baseG      *ssa.Global
+	base       int64
+	nPaths     int
 	usesGlobal map[string]bool
 }
 
